@@ -429,9 +429,9 @@ def load_known():
     for line in open(p):
         line = line.strip()
         if line.startswith("known:"):
-            m = re.match(r"known:\s+property=(\S+)\s+id=(\S+)\s+witness=(\S+)\s+sig=(\S+)\s+::\s*(.*)$", line)
+            m = re.match(r"known:\s+property=(\S+)\s+id=(\S+)\s+(?:engine=(\S+)\s+)?witness=(\S+)\s+sig=(\S+)\s+::\s*(.*)$", line)
             if m:
-                known.append(dict(prop=m.group(1), id=m.group(2), witness=m.group(3), sig=m.group(4), text=m.group(5)))
+                known.append(dict(prop=m.group(1), id=m.group(2), engine=m.group(3), witness=m.group(4), sig=m.group(5), text=m.group(6)))
         elif line.startswith("fixed:"):
             fixed.append(line)
     return known, fixed
@@ -490,7 +490,8 @@ def search_failing_input(engine, prop, seed, n, known):
 def check(prop, tier):
     t0 = time.time()
     cfg = PROPS[prop]
-    engine = cfg["engine"]
+    engines = cfg.get("engines") or [cfg["engine"]]
+    engine = engines[0]
     seed = int(os.environ.get("VERIF_SEED", "1") or "1")
     ev = {"property_id": prop, "tier": tier, "seed": seed, "level": cfg.get("level", "proof"), "violations": 0}
     violations = []   # (replay path, suffix)
@@ -507,8 +508,14 @@ def check(prop, tier):
             thm_ok = not forb
             notes.append("Coq build has failures outside Properties/%s.v (see coq/.build.log)" % prop)
         a_ok, a_res, a_text = assumptions(prop) if thm_ok else (False, [], "not compiled")
-        okm, outm = build_model(engine)
-        okh, outh = build_harness(engine)
+        okm, outm, okh, outh = True, "", True, ""
+        for eng_ in engines:
+            okm_, outm_ = build_model(eng_)
+            okh_, outh_ = build_harness(eng_)
+            if not okm_:
+                okm, outm = False, outm_
+            if not okh_:
+                okh, outh = False, outh_
     if not okh:
         print(outh[-3000:])
         print("ERROR: harness for engine %s does not build against /repo (with -tags verif)" % engine)
@@ -534,13 +541,15 @@ def check(prop, tier):
     hist = {}
     all_stats = {"lines": 0, "P": 0, "M": 0, "other_prop": 0}
     batches = []
-    for pth in sorted(glob.glob(os.path.join(ROOT, "corpus", engine, "*.ops"))):
-        batches.append(("corpus:" + os.path.basename(pth), open(pth).read()))
-    if okm:
-        batches.append(("generated", gen_cases(engine, seed, n, tier, prop)))
+    for eng_ in engines:
+        for pth in sorted(glob.glob(os.path.join(ROOT, "corpus", eng_, "*.ops"))):
+            batches.append(("corpus:" + os.path.basename(pth), eng_, open(pth).read()))
+        if okm:
+            n_e = cfg.get("n_%s_%s" % (tier, eng_), n)
+            batches.append(("generated", eng_, gen_cases(eng_, seed, n_e, tier, prop)))
     strong_found = []
     weak_found = []
-    for bname, ops_text in batches if okm else []:
+    for bname, engine, ops_text in batches if okm else []:
         fails, stats, impl_out, model_out = run_both(engine, prop, ops_text)
         for k in all_stats:
             all_stats[k] += stats[k]
@@ -563,14 +572,14 @@ def check(prop, tier):
             seen_cases.add(f.case_id)
             ops = cd.get(f.case_id)
             if ops is None:
-                (strong_found if f.strong() else weak_found).append((f.case_id, [], f, impl_out[-2000:], model_out[-2000:]))
+                (strong_found if f.strong() else weak_found).append((f.case_id, [], f, impl_out[-2000:], model_out[-2000:], engine))
                 continue
             small = shrink(engine, prop, f.case_id, ops, f.strong(), budget_s=cfg.get("shrink_s", 60))
             fs, _, io, mo = run_both(engine, prop, join_cases([(f.case_id, small)]))
             fs_sel = [x for x in fs if x.strong()] if f.strong() else fs
             if not fs_sel:   # flaky / not reproducible after shrinking: keep the original
                 small, fs_sel, io, mo = ops, [f], impl_out, model_out
-            (strong_found if f.strong() else weak_found).append((f.case_id, small, fs_sel[0], io, mo))
+            (strong_found if f.strong() else weak_found).append((f.case_id, small, fs_sel[0], io, mo, engine))
             if len(strong_found) + len(weak_found) >= 3:
                 break
 
@@ -579,33 +588,38 @@ def check(prop, tier):
         if k["prop"] != prop or not okm:
             continue
         wtxt = open(os.path.join(ROOT, k["witness"])).read()
-        fails, _, io, mo = run_both(engine, prop, wtxt)
+        fails, _, io, mo = run_both(k.get("engine") or engines[0], prop, wtxt)
         if any(f.strong() for f in fails):
             known_lines.append("KNOWN-FINDING: property=%s %s %s" % (prop, k["id"], k["text"]))
         else:
             notes.append("known finding %s no longer reproduces on its witness" % k["id"])
 
     # --- classify
-    for cid, ops, f, io, mo in strong_found:
+    for cid, ops, f, io, mo, eng_ in strong_found:
         k = matches_known(prop, known, ops, f)
         if k:
             notes.append("generated case %s hit known finding %s" % (cid, k["id"]))
             continue
-        path = write_replay(prop, engine, cid, ops, f, io, mo)
+        path = write_replay(prop, eng_, cid, ops, f, io, mo)
         violations.append((path, ""))
     if not violations and (weak_found or broken_thm):
-        found = search_failing_input(engine, prop, seed, cfg["n_thorough"], known) if okm else None
+        found = None
+        for eng_ in engines if okm else []:
+            found = search_failing_input(eng_, prop, seed, cfg.get("n_thorough_%s" % eng_, cfg["n_thorough"]), known)
+            if found:
+                engine = eng_
+                break
         if found:
             cid, ops, f, io, mo = found
             path = write_replay(prop, engine, cid, ops, f, io, mo, note="found by the search after: %s" % (broken_thm or weak_found[0][2].detail))
             violations.append((path, ""))
         else:
             if weak_found:
-                cid, ops, f, io, mo = weak_found[0]
-                path = write_replay(prop, engine, cid, ops, f, io, mo,
+                cid, ops, f, io, mo, eng_ = weak_found[0]
+                path = write_replay(prop, eng_, cid, ops, f, io, mo,
                                     note="correspondence broken: model/%s and implementation differ on a mechanism-level observable; no property-level failure found" % engine)
             else:
-                path = write_replay(prop, engine, "-", [], None, "", "", note="theorem no longer checks: " + broken_thm)
+                path = write_replay(prop, engines[0], "-", [], None, "", "", note="theorem no longer checks: " + broken_thm)
             violations.append((path, " no-failing-input-found"))
 
     # --- evidence
